@@ -141,12 +141,12 @@ PROPS = {
         "title": "AsyncReader is cancellation-safe",
         "bounds": "ONE inductive step (one harness per Inv state family and offset: ReadLen o=0..4, ReadVal o=0..2): from every reader state satisfying the representation invariant Inv (ReadLen(b,o), o<=4, b[..o] = frame prefix bytes | ReadVal(o), buffer.len()==declared, "
                   "buffer[..o] = payload bytes; source positioned at exactly the bytes accounted for), built through the cfg(minicbor_verif) hook, one read() future is created, polled ONCE and dropped; "
-                  "every inner source read answers Pending / transient error / EOF / 1 byte / up to 4 bytes (quick: <= 1, thorough: <= 2 completed reads per poll); frame = 2-byte payload, EOF point symbolic. "
+                  "every inner source read answers Pending / transient error / EOF / 1 byte / up to 4 bytes (quick: <= 1, thorough: <= 2 completed reads per poll); frame = 2-byte payload, EOF point symbolic; plus scripted-source steps (each read outcome of the poll CONCRETE: Pending / error / 1 byte / max bytes / EOF; payload and stale bytes symbolic; up to 3 reads per poll; 4 scripts quick, 94 thorough: every [data, x] script from every state with bytes missing and [k1, k1, x]). "
                   "Post: value == frame value & source behind the frame & fresh state | Pending/transient error => Inv again | EOF inside => UnexpectedEof | clean end only at a boundary. Base case: new() satisfies Inv",
         "outside": "the lifting from one step to poll/drop schedules of any length is an induction ARGUMENT (post-states are Inv states, which are all covered as pre-states), not a query; payloads > 2 bytes; > 2 completed reads in one poll",
         "assumptions": ["Vec::resize replaced by a fixed-capacity growth model", "hook: cfg(minicbor_verif) __verif_from_parts/__verif_state (add-only)"],
-        "groups": [io({"quick": ["c15::c15_q_step", "c15::c15_new"], "thorough": ["c15::c15_q_step", "c15::c15_t_step", "c15::c15_new"]}, timeout={"quick": 850, "thorough": 3600}, mem_gb={"quick": 13, "thorough": 30}, jobs={"quick": 5, "thorough": 2}),
-                   io({"quick": ["c15::c15_q_s_"], "thorough": ["c15::c15_q_s_", "c15::c15_t_s_"]}, timeout={"quick": 600, "thorough": 1800}, mem_gb={"quick": 10, "thorough": 12}, jobs={"quick": 8, "thorough": 6})],
+        "groups": [io({"quick": ["c15::c15_q_step", "c15::c15_new"], "thorough": ["c15::c15_q_step", "c15::c15_t_step", "c15::c15_new"]}, timeout={"quick": 850, "thorough": 3600}, mem_gb={"quick": 15, "thorough": 30}, jobs={"quick": 4, "thorough": 2}),
+                   io({"quick": ["c15::c15_q_s_"], "thorough": ["c15::c15_q_s_", "c15::c15_t_s_"]}, timeout={"quick": 600, "thorough": 1800}, mem_gb={"quick": 15, "thorough": 15}, jobs={"quick": 4, "thorough": 4})],
     },
     "C16": {
         "title": "AsyncWriter delivers whole frames in order under short writes and cancel+sync",
